@@ -359,3 +359,53 @@ contract(CSV + ".handle_upload_encrypted_database_echo", crash_invariant=CLI_CRA
                  ["flag(%s, %d) == flag(%s, %d)" % (CST, o, OCST, o) for o in (0, 1, 2, 3)] +
                  ["cli_key == old(cli_key)", "cli_cfg == old(cli_cfg)", "self.sid == old(self.sid)"],
          no_runtime=True, modifies_ghost=["cli_meta", "cli_edb"], props=["C11", "C13", "C09"])
+
+
+# ---- handle_create_config: creating a service never touches an existing one -----------------------------------------
+# (no crash-prefix obligations here: they would need the disk-wide invariant 'every record lies in an existing directory' for the
+#  not yet known service id, which the contract language cannot quantify; the crash stand-in of C13 covers this step)
+ghost_var("cli_dir", STRI)       # sid -> 1 when the client's directory <sid> exists
+CS_MOD = "frontend/client/services/service.py:"
+cfg_valid = specfn("cfg_valid", [TBytes], TBool, doc="the chosen scheme accepts the configuration (abstract)")
+
+
+@effect(CS_MOD + "_check_config_valid", "trusted: decides whether the scheme can be instantiated; no effect on the client disk")
+def _c_valid(E, a, kw, fr, node):
+    return SV(cfg_valid(E.to_sv(a[0], TBytes).t), TBool)
+
+
+effect(CS_MOD + "_add_salt_to_config", "trusted: adds a random salt to the caller's dict; no effect on the client disk")(lambda E, a, kw, fr, node: None)
+
+
+@effect(CS_MOD + "_calculate_sid_by_config_content", "trusted: the service id is a hash of the salted configuration (some string)")
+def _c_sid(E, a, kw, fr, node):
+    return E.fresh("new_sid", TStr)
+
+
+@effect(CFM + "create_sid_folder", "D1: mkdir() -- FileExistsError iff the directory exists (proved in contracts/filemgr.py)")
+def _c_mkdir(E, a, kw, fr, node):
+    s = _sid(E, a[0])
+    E.may_raise("FileExistsError", _has(_g(E, "cli_dir"), s), getattr(node, "lineno", 0), "create_sid_folder of an existing directory")
+    _cput(E, "cli_dir", s, z3.IntVal(1))
+    _crash_point(E, "create_sid_folder", node)
+
+
+@effect(CFM + "write_service_config", "D1: writes <sid>/config.json")
+def _c_wcfg(E, a, kw, fr, node):
+    _cput(E, "cli_cfg", _sid(E, a[0]), z3.IntVal(1))
+    _crash_point(E, "write_service_config", node)
+
+
+C_UNCHANGED_ALL = C_UNCHANGED + ["cli_dir == old(cli_dir)", "self.sid == old(self.sid)"]
+contract(CSV + ".handle_create_config", params=dict(self=CSVT, config=TBytes), returns=TStr, modifies=["self"], requires=CINV,
+         raises={"ValueError": dict(when="flag(%s, 0) or not cfg_valid(config)" % OCST, iff=True),
+                 "FileExistsError": "not flag(%s, 0) and cfg_valid(config)" % OCST},
+         # a refusal -- also the one that comes from the directory already being there -- leaves disk and object as they were
+         # (the in-memory object has already taken the new service id when the directory turns out to exist; the disk has not)
+         raise_ensures={"ValueError": C_UNCHANGED_ALL, "FileExistsError": C_UNCHANGED + ["cli_dir == old(cli_dir)"]},
+         ensures=["result == self.sid", "not (self.sid in old(cli_dir))",          # only ever a directory that did not exist
+                  "cli_dir == dput(old(cli_dir), self.sid, 1)", "cli_cfg == dput(old(cli_cfg), self.sid, 1)",
+                  "cli_meta == dput(old(cli_meta), self.sid, %s)" % CST, "flag(%s, 0)" % CST,
+                  "cli_key == old(cli_key)", "cli_edb == old(cli_edb)"] +       # no key, no index of ANY service is touched
+                 ["flag(%s, %d) == flag(%s, %d)" % (CST, o, OCST, o) for o in (1, 2, 3, 4)],
+         no_runtime=True, modifies_ghost=["cli_dir", "cli_cfg", "cli_meta"], props=["C11", "C13"])
